@@ -435,6 +435,32 @@ func c06ContextScenario() *hist.Scenario {
 	}
 }
 
+// c06EndsAttrScenario: callees that end the attribute (or the attribute name) they were called in and go on in the
+// tag. How such a callee has to be analysed depends on things of the call site that the value of the attribute
+// alone does not show: whether the attribute name may still go on, what a rel value starts with, and which static
+// text belongs to the attribute the callee opens rather than to the one it was called in.
+func c06EndsAttrScenario() *hist.Scenario {
+	return &hist.Scenario{
+		Name:     "callee-ends-the-calling-attribute",
+		RootName: "root",
+		Init: `{{define "n"}}y="1" title="{{.S}}"{{end}}{{define "np"}}<a data-x{{if .L}} {{end}}{{template "n" .}}>k</a>{{end}}{{define "nq"}}<a data-x{{template "n" .}}>k</a>{{end}}` +
+			`{{define "lh"}}" href="{{.S}}"{{end}}{{define "li"}}<link rel="icon{{template "lh" .}}>{{end}}{{define "ls"}}<link rel="stylesheet{{template "lh" .}}>{{end}}` +
+			`{{define "qh"}}" href="/a?{{end}}{{define "qp"}}<a title="/a?{{template "qh" .}}{{.S}}">p</a>{{end}}{{define "qq"}}<a title="zz{{template "qh" .}}{{.S}}">q</a>{{end}}` +
+			`{{define "jh"}}" href="java{{end}}{{define "jp"}}<a title="java{{template "jh" .}}">p</a>{{end}}{{define "jq"}}<a title="/x?{{template "jh" .}}{{.S}}">q</a>{{end}}{{define "jr"}}<a title="/x{{template "jh" .}}{{.S}}">r</a>{{end}}` +
+			`R{{.S}}`,
+		Data: histData(),
+	}
+}
+
+func c06EndsAttrAlphabet() []hist.Op {
+	var ops []hist.Op
+	for _, name := range []string{"np", "nq", "li", "ls", "qp", "qq", "jp", "jq", "jr"} {
+		ops = append(ops, hist.Op{Kind: hist.Exec, H: 0, Form: 2, Name: name, Arg: 0})
+	}
+	ops = append(ops, hist.Op{Kind: hist.Exec, H: 0, Form: 2, Name: "li", Arg: 1}, hist.Op{Kind: hist.Exec, H: 0, Form: 2, Name: "jr", Arg: 1}, hist.Op{Kind: hist.Exec, H: 0, Form: 0, Arg: 0})
+	return ops
+}
+
 // c06ContextAlphabet: part 1 = callees whose analysis depends on the calling context, part 2 = state of the escaper and
 // of the sanitizers between executions. The two halves are explored as separate scenarios over the same definitions
 // (30 calls to depth 4 do not fit the quick budget; the halves do).
@@ -622,7 +648,7 @@ func buildHistScenarios() {
 		sc := c05Scenario(k)
 		histScenarios[sc.Name] = sc
 	}
-	for _, sc := range []*hist.Scenario{c06Scenario(), c06ContextScenario(), c07Scenario(), c08Scenario()} {
+	for _, sc := range []*hist.Scenario{c06Scenario(), c06ContextScenario(), c06EndsAttrScenario(), c07Scenario(), c08Scenario()} {
 		histScenarios[sc.Name] = sc
 	}
 	ctx2 := c06ContextScenario()
@@ -716,8 +742,10 @@ func checkC06(r *core.Run) {
 	}
 	ctx2 := c06ContextScenario()
 	ctx2.Name = "escaper-state-between-executions"
-	histRun(r, c06Clauses, []*hist.Scenario{c06Scenario(), c06ContextScenario(), ctx2}, func(sc *hist.Scenario) []hist.Op {
+	histRun(r, c06Clauses, []*hist.Scenario{c06Scenario(), c06ContextScenario(), ctx2, c06EndsAttrScenario()}, func(sc *hist.Scenario) []hist.Op {
 		switch sc.Name {
+		case "callee-ends-the-calling-attribute":
+			return c06EndsAttrAlphabet()
 		case "context-dependent-callee":
 			return c06ContextAlphabet(1)
 		case "escaper-state-between-executions":
@@ -728,6 +756,7 @@ func checkC06(r *core.Run) {
 	histProcessFresh(r, c06Scenario(), c06Alphabet())
 	histProcessFresh(r, c06ContextScenario(), c06ContextAlphabet(1))
 	histProcessFresh(r, ctx2, c06ContextAlphabet(2))
+	histProcessFresh(r, c06EndsAttrScenario(), c06EndsAttrAlphabet())
 	r.Sample(map[string]string{"scenario": "shared-helper", "history": renderOps(c06Alphabet()[2:5])})
 	r.Assume("expected value of every call = the same call on a freshly built set (no hand-written expectations)")
 }
